@@ -515,6 +515,47 @@ def run(prog, rep):
                               f'{wname} writes {norm(a.targets[0].slice, 50)} from sliver.{attrs_[0]} whether or not it was set; set_property() on a model '
                               f'element builds a fresh sliver holding only the property being set and merges this dictionary into the node, so the '
                               f'constructor default of {attrs_[0]} overwrites the stored value whenever any other property is set')
+    # R12: the other side of R11 - a property that is written only when set may be missing from a node, so nothing reads it
+    # with a bare subscript or a pop without default; only the identity properties (never removable) are read that way
+    rep.rule('R12', 'graph properties read without a presence test are identity properties', floor=30)
+    try:
+        ident = set(prog.class_const(apg, 'NO_UNSET_PROPERTIES'))
+    except Exception:
+        raise AnalysisError('NO_UNSET_PROPERTIES does not fold')
+    # StructuralInfo is given to every node of a combined broker model when it is merged (C14 R2 checks that)
+    ALWAYS = {'fim/graph/resources/neo4j_cbm.py': {'StructuralInfo'}}
+    for m_, c_, f_ in prog.all_functions():
+        for n in ast.walk(f_):
+            key = None
+            if isinstance(n, ast.Call) and isinstance(n.func, ast.Attribute) and n.func.attr == 'pop' and len(n.args) == 1 and not n.keywords:
+                key = n.args[0]
+            elif isinstance(n, ast.Subscript) and isinstance(n.ctx, ast.Load):
+                key = n.slice
+            if key is None or not (isinstance(key, ast.Attribute) and key.attr.startswith('PROP_')):
+                continue
+            try:
+                kv = prog.const_eval(key, m_, c_)
+            except Exception:
+                continue
+            if not isinstance(kv, str):
+                continue
+            ktxt = ast.unparse(key)
+            _, cs_ = _enclosing(n, f_)
+            guarded = any(ktxt in ast.unparse(c__) for c__ in cs_)
+            p_ = n
+            while p_ is not None and p_ is not f_:
+                p_ = getattr(p_, '_parent', None)
+                if isinstance(p_, ast.IfExp) and ktxt in ast.unparse(p_.test):
+                    guarded = True
+                if isinstance(p_, ast.Try) and any(h.type is None or 'KeyError' in ast.unparse(h.type) or ast.unparse(h.type) in ('Exception', 'BaseException')
+                                                   for h in p_.handlers):
+                    guarded = True
+            fq12 = (c_.name + '.' if c_ else '') + f_.name
+            rep.instance('R12', f'{m_.relpath}:{n.lineno} {fq12}: {kv} read ' + ('behind a presence test' if guarded else 'directly'))
+            if not guarded and kv not in ident and kv not in ALWAYS.get(m_.relpath, ()):
+                rep.violation('R12', loc(m_, n), fq12, f'{kv} read without a presence test',
+                              f'{norm(n, 60)} assumes that every node carries {kv}; the writers store that property only when it is set (and '
+                              f'unset_property removes it), so this raises KeyError for an element that never had it set')
     # R10: deep readers collect ALL children: the container a loop fills is created once, before the loop
     rep.rule('R10', 'deep builders create the child container once per parent (not once per child)', floor=8)
     from ..lints import containers_filled_in_loops
@@ -694,6 +735,8 @@ def check_deep_writers(prog, rep, rule):
 
 APGF = 'fim/graph/abc_property_graph.py'
 MUTANTS = [
+    {'name': 'repr-assumes-stitch-flag-present', 'file': 'fim/user/model_element.py', 'rule': 'R12',
+     'find': 'node_props.pop(ABCPropertyGraph.PROP_STITCH_NODE, None)', 'replace': 'node_props.pop(ABCPropertyGraph.PROP_STITCH_NODE)'},
     {'name': 'sub-interfaces-not-written', 'file': APGF, 'rule': 'R9',
      'find': "                self.add_interface_sliver(parent_node_id=interface.node_id, interface=child)\n", 'replace': "                pass\n"},
     {'name': 'stitch-flag-written-from-default', 'file': APGF, 'rule': 'R11',
